@@ -18,7 +18,7 @@ import ast
 from ..model import AnalysisError
 from ..terms import T, walk_terms
 from ..absint import AV, TOP, cav
-from ..walk import (call_parts, call_arg, is_call_to, const_val, NOVAL, strip_views, unwrap_gamma, callee_func, callee_name,
+from ..walk import (dead_leaf, call_parts, call_arg, is_call_to, const_val, NOVAL, strip_views, unwrap_gamma, callee_func, callee_name,
                     call_paths, is_conj, same_value, norm_stmt, gamma_paths, compatible, newaxis_insertions, shape_dim, selected_options)
 from .. import loop as LP
 from .. import ein, sel
@@ -74,7 +74,7 @@ def check_alternation(run, A):
         run.check(ok, 'R-LOOP', f'{short}: M-step receives this iteration\'s posterior', fn.loc(L.m_call.node), '', why, construct=f'R-LOOP::{fn.qual}::affiliation-flow')
         # model starts as None (or the given model) so that the first iteration uses the initial affiliation
         inits = [strip_views(x) for x in unwrap_gamma(L.model_init)]
-        ok_init = all((x.op == 'const' and x.args[0] is None) or (x.op == 'param' and x.args[0] == 'initialization') or x.op == 'raise' for x in inits)
+        ok_init = all((x.op == 'const' and x.args[0] is None) or (x.op == 'param' and x.args[0] == 'initialization') or dead_leaf(x) for x in inits)
         if L.peeled:
             # the first M-step in front of the loop works on the given initialisation
             a0 = LP.m_step_arg_of(L.first_m_call, 'affiliation')
